@@ -109,6 +109,8 @@ def step_shape(P, fn, callee, cursor_field):
                 val = ('discr', place(rv['place']))
             elif rv['k'] == 'aggregate':
                 val = ('agg', rv['kind'].get('path'), rv['kind'].get('variant'), tuple(operand(o) for o in rv['ops']))
+            elif rv['k'] == 'binop' and rv['op'] in ('Lt', 'Le', 'Gt', 'Ge'):
+                val = ('cmpop', rv['op'], operand(rv['a']), operand(rv['b']))
             else:
                 val = ('?', rv['k'])
             tp = st['place']
@@ -177,8 +179,19 @@ def step_shape(P, fn, callee, cursor_field):
                 v = a[0]
                 if isinstance(v, tuple) and v[0] == 'discr' and v[1] == ('selfval',):
                     variant = a[1] if a[1] != 'else' else None
-                if isinstance(v, tuple) and v[0] == 'call' and v[1].endswith('::lt'):
-                    guard = (v, a[1] != 0 if a[1] != 'else' else (0 in a[2]))
+                gk = None
+                if isinstance(v, tuple) and v[0] == 'call' and v[1].rsplit('::', 1)[-1] in ('lt', 'ge', 'gt', 'le') and len(v[2]) == 2:
+                    gk, gargs = v[1].rsplit('::', 1)[-1], v[2]
+                elif isinstance(v, tuple) and v[0] == 'cmpop':
+                    gk, gargs = v[1].lower(), (v[2], v[3])
+                if gk is not None:
+                    # every spelling of  offset < back_offset : a < b, !(a >= b), b > a, !(b <= a)
+                    truth = a[1] != 0 if a[1] != 'else' else (0 in a[2])
+                    if gk in ('ge', 'le'):
+                        truth = not truth
+                    if gk in ('gt', 'le'):
+                        gargs = (gargs[1], gargs[0])
+                    guard = (('call', 'lt', tuple(gargs)), truth)
                 if isinstance(v, tuple) and v[0] == 'discr' and isinstance(v[1], tuple) and v[1][0] == 'call' and v[1][1] == callee:
                     called = (v[1], a[1])
             is_none = isinstance(ret, tuple) and ret[0] == 'agg' and ret[1] == 'std::option::Option' and ret[2] == 0
@@ -205,7 +218,7 @@ def step_shape(P, fn, callee, cursor_field):
                 def fld(x):
                     while isinstance(x, tuple) and x[0] == 'ref':
                         x = x[1]
-                    return x[1] if isinstance(x, tuple) and x[0] == 'fref' else None
+                    return x[1] if isinstance(x, tuple) and x[0] in ('fref', 'fval') else None
                 if [fld(x) for x in ga] != [1, 2]:
                     problems.append(f'the guard is not offset < back_offset (compares fields {[fld(x) for x in ga]})')
             # callee args: (path, cursor)
